@@ -45,6 +45,10 @@ namespace Driver.C07
 
 /-! ### kind scan -/
 
+/-- the OS refused the process another thread (EAGAIN from `std::thread::spawn` / rayon / tokio under a loaded machine or an
+    exhausted pid limit): an environment failure of the run, not a behaviour of the engine — the case is not judged -/
+def isEnvPanic (m : String) : Bool := (m.splitOn "failed to spawn thread").length > 1
+
 def idBatches (cuts : List Nat) : List (List Nat) :=
   (cuts.foldl (fun (acc : List (List Nat) × Nat) n => (acc.1 ++ [(List.range n).map (· + acc.2)], acc.2 + n)) ([], 0)).1
 
@@ -59,6 +63,7 @@ def handleScan (c i : Json) : Except String Driver.Verdict := do
   let mparts := (List.range n).map (fun p => (scanExecute (max n 1) p batches).flatten)
   let model := Json.mkObj [("declared", Json.num (JsonNumber.fromNat n)), ("parts", Json.arr (mparts.map Driver.jNatList).toArray)]
   if let .ok m := i.getObjValAs? String "panic" then
+    if isEnvPanic m then return { model := model, k := true, oracle := none, nt := false, tags := ["scan", "env:thread-exhaustion"] }
     return { model := model, k := false, oracle := some s!"engine panicked: {m.take 120}", tags := ["scan", "scan:panic"] }
   if let .ok m := i.getObjValAs? String "err" then
     return { model := model, k := false, oracle := some s!"planning the scan failed: {m.take 120}", tags := ["scan", "scan:err"] }
@@ -126,6 +131,7 @@ def handleOjoin (c i : Json) : Except String Driver.Verdict := do
   let model := Json.mkObj [("rows", Json.num (JsonNumber.fromNat m.length))]
   let tags0 := ["ojoin", s!"ojoin:{jt}"]
   if let .ok msg := i.getObjValAs? String "panic" then
+    if isEnvPanic msg then return { model := model, k := true, oracle := none, nt := false, tags := tags0 ++ ["env:thread-exhaustion"] }
     return { model := model, k := false, oracle := some s!"engine panicked: {msg.take 120}", tags := tags0 ++ ["ojoin:panic"] }
   if let .ok msg := i.getObjValAs? String "err" then
     return { model := model, k := false, oracle := some s!"the join failed: {msg.take 120}", tags := tags0 ++ ["ojoin:err"] }
@@ -205,6 +211,7 @@ def handleTracker (c i : Json) : Except String Driver.Verdict := do
   let model := Json.mkObj [("rows", Json.num (JsonNumber.fromNat m.length))]
   let tags0 := ["tracker", s!"tracker:{mode}"]
   if let .ok msg := i.getObjValAs? String "panic" then
+    if isEnvPanic msg then return { model := model, k := true, oracle := none, nt := false, tags := tags0 ++ ["env:thread-exhaustion"] }
     return { model := model, k := false, oracle := some s!"engine panicked: {msg.take 120}", tags := tags0 ++ ["tracker:panic"] }
   if let .ok msg := i.getObjValAs? String "err" then
     return { model := model, k := false, oracle := some s!"the join failed: {msg.take 120}", tags := tags0 ++ ["tracker:err"] }
@@ -306,7 +313,7 @@ def handleSql (c i : Json) : Except String Driver.Verdict := do
         t.length ≥ 1000 && (recut ≥ 2 || (match m.getObjValAs? (Array Json) "cuts" with | .ok a => a.size ≥ 2 | .error _ => false))
     | .error _ => false
   let oks := runs.filterMap fun (k, o) => match o with | .ok t => some (k, t) | _ => none
-  let panics := runs.filterMap fun (k, o) => match o with | .panic m => some s!"{k}: {m.take 100}" | _ => none
+  let panics := runs.filterMap fun (k, o) => match o with | .panic m => if isEnvPanic m then none else some s!"{k}: {m.take 100}" | _ => none
   let errs := runs.filterMap fun (k, o) => match o with | .err "timeout" => none | .err e => some s!"{k}: {e}" | _ => none
   -- reference configuration: single batch, one thread (if it answered), else the first answer
   let ref? : Option (String × Table) :=
